@@ -53,6 +53,16 @@ pub fn load_corpus(dir: &str) -> Corpus {
             }
         }
     }
+    // witnesses of fixed defects that need a particular width and input: bits <TAB> input hex <TAB> program
+    if let Ok(s) = std::fs::read_to_string(format!("{dir}/witness.tsv")) {
+        for l in s.lines() {
+            let p: Vec<&str> = l.split('\t').collect();
+            if p.len() == 3 && spec::check_brackets(p[2]).is_ok() {
+                items.push((p[2].to_string(), Some(json::unhex(p[1]))));
+                bits.insert(p[2].to_string(), p[0].parse().unwrap_or(8));
+            }
+        }
+    }
     Corpus { items, bits }
 }
 
@@ -318,7 +328,7 @@ pub fn diff(args: &Args) -> i32 {
         let mut rng = Rng::derive(args.seed, fnv64(prop.as_bytes()), idx);
         let case = if args.get("no-corpus").is_none() && idx < ncorpus {
             let it = &corpus.items[idx as usize];
-            let bits = if it.1.is_some() { 8 } else if let Some(&b) = corpus.bits.get(&it.0) { b } else { *rng.pick(&[8u32, 8, 16, 32, 64]) };
+            let bits = if let Some(&b) = corpus.bits.get(&it.0) { b } else if it.1.is_some() { 8 } else { *rng.pick(&[8u32, 8, 16, 32, 64]) };
             let code = if prop == "C04" && idx % 2 == 1 { c12_comment(&mut rng, &it.0).0 } else { it.0.clone() };
             Case { code, bits, family: Family::Corpus, fixed_input: it.1.clone() }
         } else {
